@@ -13,59 +13,59 @@ CLAIMS = {
  'C02': dict(text='Bounded symbolic execution of rule visitors from MIR on program templates resolved by the real resolve_types, with identifiers symbolic over a small alphabet, compared with reference predicates written from the rule documentation; '
                   'stages::semantic executed with every rule replaced by a nondeterministic stub (registration of every rule module, Err iff any rule fails, diagnostics concatenated). Mismatches are replayed through analyze().',
              tech='SMT-guided bounded symbolic execution of rustc MIR (z3) with symbolic-key hash-map model', sect='§4 C02',
-             note='Kernels K1 (7 rule templates incl. function-block invocation scope and constant globals), K4 (subrange limits on symbolic signed bounds) and K3. Outside: the remaining rules, rule interaction on whole programs, derive(Recurse) traversal completeness (K2) unless listed in evidence.'),
+             note='Kernels K1 (7 rule templates incl. function-block invocation scope and constant globals), K4 (subrange limits on symbolic signed bounds) and K3. Outside: the remaining rules, rule interaction on whole programs, derive(Recurse) traversal completeness (K2) unless listed in evidence. K5 (parse_program + stages::analyze on ~700 shapes of 12 source templates covering every documented rule - function-block arguments P0006-P0009, invocation scope P0021, enumerated values P0012-P0014, CONSTANT rules P0016/P0017, unsupported standard types P0029, undeclared variables in every statement kind P0015, structure elements, enumeration values, tasks, subranges, constant globals - against reference predicates written from the rule documentation).'),
  'C03': dict(text='Symbolic execution of FileBackedProject::semantic (parse/analyze as nondeterministic stubs, hash order nondeterministic) and of xform_toposort_declarations::apply on declaration pairs with symbolic names; '
                   'the solver decides that no parse error, analysis error or declaration is lost. Models are replayed through Project::semantic / ironplcc check / analyze.',
              tech='SMT-guided bounded symbolic execution of rustc MIR (z3)', sect='§4 C03',
-             note='Kernels K1, K3, K4 (same-name declarations diagnosed by resolve_types), K5 (a rule finding is never hidden by a second, valid declaration; both orders). Outside: per-rule behaviour in company of other declarations (argued from C02), sets larger than the bounds.'),
+             note='Kernels K1, K3, K4 (same-name declarations diagnosed by resolve_types), K5 (a rule finding is never hidden by a second, valid declaration; both orders). Outside: per-rule behaviour in company of other declarations (argued from C02), sets larger than the bounds. K6 (16 single-fault units x valid companion declarations, before/after and in a second file, every toposort tie-break: the fault\'s code is still reported).'),
  'C06': dict(text='Symbolic execution of project.semantic under every hash iteration order, of toposort apply under every permutation of the declarations and every toposort tie-break, and of stages::resolve_types under file partitions, '
                   'with reference edges symbolic; verdicts must equal the reference graph verdict whatever the order/partition.',
              tech='SMT-guided bounded symbolic execution of rustc MIR (z3), nondeterministic contract models for hash order and toposort ties', sect='§4 C06',
-             note='Kernels K1-K3, K4 (rule verdict under exchange of independent POUs, identifiers symbolic). Outside: order-independence of reported code/location through the remaining rules; CLI argument order.'),
+             note='Kernels K1-K3, K4 (rule verdict under exchange of independent POUs, identifiers symbolic). Outside: order-independence of reported code/location through the remaining rules; CLI argument order. K5 (17 compilation units: parse + full analysis for every order of the declarations, every split into one or two files and every toposort tie-break: same codes and same label text).'),
  'C07': dict(text='Symbolic execution of the real graph-building visitor and DeclarationsGraph::sorted_ids over every directed graph on K nodes (one symbolic bit per edge) in three realisations; verdict compared with the transitive closure of the reference graph; mismatches replayed through analyze().',
              tech='SMT-guided bounded symbolic execution of rustc MIR (z3), petgraph by contract', sect='§4 C07',
-             note='Kernel K1. Outside: graphs beyond the node bound, mixed realisations, alias-chain walk (K2) unless listed.'),
+             note='Kernel K1. Outside: graphs beyond the node bound, mixed realisations, alias-chain walk (K2) unless listed. K1 also realises graphs whose nodes alternate between function blocks and structures.'),
  'C11': dict(text='Symbolic execution of LspServer::handle_notification, LspProject and FileBackedProject (real HashMap-backed project) over every notification history up to the bound; parse and analysis are uninterpreted functions of the texts, '
                   'so the solver decides that the published diagnostics are a function of the current contents only, carry the notification uri/version, and that the project holds exactly the current texts. Replayed through the real LSP binary against a fresh server.',
              tech='SMT-guided bounded symbolic execution of rustc MIR (z3) with uninterpreted parse/analyze', sect='§4 C11',
-             note='Kernel K3 (covers K1/K2 obligations on the explored histories; the reference is a fresh server told only the current contents, run on the same path with the same uninterpreted parse/analysis outcomes). Outside: JSON framing, URI conversion, equality with `check` beyond sharing FileBackedProject::semantic.'),
+             note='Kernel K3 (covers K1/K2 obligations on the explored histories; the reference is a fresh server told only the current contents, run on the same path with the same uninterpreted parse/analysis outcomes). Outside: JSON framing, URI conversion, equality with `check` beyond sharing FileBackedProject::semantic. K4 (the published start position is the line/character `check` prints: lsp_project::map_label on symbolic documents and spans).'),
  'C12': dict(text='One-step symbolic execution of the server message loop, request and notification handlers for an arbitrary message (method symbolic, params deserialise or not, document URI scheme file or other, 0..2 content changes) and of diagnostic conversion for two-document diagnostics; '
                   'solver decides exactly-one-response, no response to notifications, no panic. Replayed through the real LSP binary.',
              tech='SMT-guided bounded symbolic execution of rustc MIR (z3); inductive one-step kernels', sect='§4 C12',
-             note='Kernels K1, K2, K2b, K4. Outside: liveness of I/O threads, process exit status after exit (lsp-server), frame syntax.'),
+             note='Kernels K1, K2, K2b, K4. Outside: liveness of I/O threads, process exit status after exit (lsp-server), frame syntax. K5 (histories of two messages on one server built by the tree\'s own LspServer::new: request then notification - incl. $/cancelRequest with a symbolic id - or second request; lsp_server::ReqQueue by contract).'),
  'C13': dict(text='Symbolic execution of cli::check, cli::tokenize and cli::create_project with the file system, the project and the output streams as nondeterministic stubs/events: every combination of enumeration, read, lexical and semantic outcomes; '
                   'solver-enumerated paths decide OK-line <=> Ok <=> no diagnostics and that any failing path or file fails the command. Replayed through the ironplcc binary.',
              tech='SMT-guided bounded symbolic execution of rustc MIR (z3) with nondeterministic environment stubs', sect='§4 C13',
-             note='Kernels K1, K2, K2b, K3, K4 (enumerate_files over a nondeterministic file system: a directory stands for every entry in it). Outside: clap argument parsing, process exit status mapping (Rust Termination), stream contents.'),
+             note='Kernels K1, K2, K2b, K3, K4 (enumerate_files over a nondeterministic file system: a directory stands for every entry in it). Outside: clap argument parsing, process exit status mapping (Rust Termination), stream contents. K5 (handle_diagnostics prints every diagnostic with its code, also when its label names the default file id or a file the project does not hold; codespan emit by contract).'),
  'C14': dict(text='Symbolic execution of source::path_to_source with std::fs::read and encoding_rs::Encoding::decode* modelled by their documented contract over abstract files (stored encoding x text); '
                   'symbolic execution of the real lexer over every valid UTF-8 text up to N bytes (totality, tiling, character boundaries). Replayed through `ironplcc check` on files stored in each encoding.',
              tech='SMT-guided bounded symbolic execution of rustc MIR (z3); lexer DFA lifted to an ite-DAG', sect='§4 C14',
-             note='Kernels K1, K2. Outside: encoding_rs internals, UTF-16 without BOM, positions after multi-byte text (C05).'),
+             note='Kernels K1, K2. Outside: encoding_rs internals, UTF-16 without BOM, positions after multi-byte text (C05). K1 models parts of the file (prefixes/chunks) as abstract byte strings whose decodability is independent of the whole; replay also stores files whose first non-ASCII character lies behind or across 1 KiB .. 64 KiB boundaries.'),
  'C15': dict(text='Symbolic execution of LspProject::tokenize and From<LspTokenType> for Option<SemanticToken>: tokens with symbolic, ordered (line, col) are decoded under the LSP relative encoding by the solver; legend table over a symbolic TokenType; error result on lexical errors; '
                   'lexer line/column accounting over all UTF-8 texts up to N bytes. Replayed through the LSP binary.',
              tech='SMT-guided bounded symbolic execution of rustc MIR (z3)', sect='§4 C15',
-             note='Kernels K1, K2, K4, K5, K6 (the token stream handed to the LSP keeps every lexeme). Outside: token length in UTF-16 units, multi-line tokens (K3), edit histories (C11).'),
+             note='Kernels K1, K2, K4, K5, K6 (the token stream handed to the LSP keeps every lexeme). Outside: token length in UTF-16 units, multi-line tokens (K3), edit histories (C11). K3 (start and length of the tokens for a comment/string with symbolic UTF-8 body followed by an identifier are consistent in one unit - bytes, UTF-16 code units or characters - and cover the lexemes).'),
  'C10': dict(text='Symbolic round trip of leaf literals: the literal node of a parsed template is made symbolic, the real renderer is executed symbolically (format!/to_string by contract), the rendered text is lexed by the lexer lifted on that text, '
                   'parsed by the real peg parser and compared with the derived PartialEq of Library; the solver decides value preservation and re-parsability for all values in the bound. write_ws lexeme separation as an inductive step. Replayed through write_to_string/parse_program.',
              tech='SMT-guided bounded symbolic execution of rustc MIR (z3): renderer -> lifted lexer -> generated parser', sect='§4 C10',
-             note='Kernels K1 (duration, integer, date, time of day), K2, K3 (23 source templates with symbolic shape selectors: every optional segment / alternative combination run through parse -> render -> parse -> eq on the MIR; concrete f64 values evaluated natively). Outside: constructs and combinations not in the templates; symbolic reals (floating point is not encoded).'),
+             note='Kernels K1 (duration, integer, date, time of day), K2, K3 (23 source templates with symbolic shape selectors: every optional segment / alternative combination run through parse -> render -> parse -> eq on the MIR; concrete f64 values evaluated natively). Outside: constructs and combinations not in the templates; symbolic reals (floating point is not encoded). K4 (literal texts with symbolic digits/characters - time of day and date-and-time fractions, dates, durations, based integers, strings, subranges - through parse -> render -> parse -> eq).'),
  'C04': dict(text='Kani/CBMC proof harnesses over the compiled ironplc-dsl numeric constructors (all FixedPoint values, real time crate) decide panic freedom; '
                   'failing checks come with concrete playback values that are replayed through the public API and through `check` of a program containing the literal.',
              tech='bounded model checking with Kani/CBMC (bit-precise, compiled code)', sect='§4 C04', kani=True,
-             note='Kernels K2 (Kani), K3 (FixedPoint::parse on symbolic digit strings), K4 (AddressAssignment::try_from on symbolic direct-address texts, regex crate by contract with the patterns read from the MIR), K5 (parse_library error path on a token of symbolic type and symbolic UTF-8 text), K6 (parse_program + stages::analyze on template shapes with extreme limits and malformed initialisers: never a panic). Outside: stack depth, time budgets, panic sites not enumerated in evidence.'),
+             note='Kernels K2 (Kani), K3 (FixedPoint::parse on symbolic digit strings), K4 (AddressAssignment::try_from on symbolic direct-address texts, regex crate by contract with the patterns read from the MIR), K5 (parse_library error path on a token of symbolic type and symbolic UTF-8 text), K6 (parse_program + stages::analyze on template shapes with extreme limits and malformed initialisers: never a panic). Outside: stack depth, time budgets, panic sites not enumerated in evidence. K7 (preprocess() on every text of up to 4 [6] pieces out of {OSCAT keys, letter, line break, comment}: returns within an unwinding bound derived from the input length; a loop that exceeds it is replayed with a timeout).'),
  'C09': dict(text='Kani/CBMC harnesses decide integer and duration value conversions over all 128-bit / FixedPoint values; mirsym kernels (when listed in evidence) execute the literal grammar actions on symbolic digit strings; '
                   'models are replayed through parse_program.',
              tech='bounded model checking with Kani/CBMC; SMT-based symbolic execution of MIR (z3)', sect='§4 C09', kani=True,
-             note='Kernels K3a (Kani), K2 (based/decimal integer texts incl. the u128 limit), K3b (fixed point texts with underscores), K4 (DATE / TOD grammar actions on symbolic digits), K5 (sign and digits of integer literals through parse_program). Outside: correct rounding of reals, $-escapes in strings, duration unit arithmetic beyond K3a.'),
+             note='Kernels K3a (Kani), K2 (based/decimal integer texts incl. the u128 limit), K3b (fixed point texts with underscores), K4 (DATE / TOD grammar actions on symbolic digits), K5 (sign and digits of integer literals through parse_program). Outside: correct rounding of reals, $-escapes in strings, duration unit arithmetic beyond K3a. K6 (character string literals of 1-3 symbolic characters, both quote kinds, three contexts), K7 (DurationLiteral::{days..milliseconds}: interval = (whole + fraction) x unit exactly, fraction digits symbolic; decided with a division-lemma encoding and z3\'s integer-blasting bit-vector solver where bit-blasting does not finish), K8 (direct addresses with symbolic prefix letters and multi-digit components).'),
  'C05': dict(text='Bounded symbolic execution of the real lexer::tokenize over the logos state machine lifted from MIR (all valid UTF-8 sources up to N bytes), '
                   'of preprocessor::remove_oscat_comment and of lsp_project::map_label; solver decides token tiling/text/line/col, offset preservation and span->position mapping for '
                   'every input in the bound; models are replayed through tokenize_program / the LSP binary.',
              tech='SMT-based bounded symbolic execution of rustc MIR (z3), lexer DFA lifted to an ite-DAG', sect='§4 C05',
-             note='Kernels K1,K2,K5,K3 (span and file id of every identifier node on template shapes), K6 (terminal rendering: every label of a diagnostic is drawn in its own file at its own span; codespan SimpleFiles/emit as recording stubs), K7 (labels of the duplicate-name rules on symbolic names). Outside: spans of nodes other than identifiers, labels of the other rules; sources longer than the bound.'),
+             note='Kernels K1,K2,K5,K3 (span and file id of every identifier node on template shapes), K6 (terminal rendering: every label of a diagnostic is drawn in its own file at its own span; codespan SimpleFiles/emit as recording stubs), K7 (labels of the duplicate-name rules on symbolic names). Outside: spans of nodes other than identifiers, labels of the other rules; sources longer than the bound. K2 now enters through preprocess() and also covers plain texts and comment texts with symbolic bytes (preprocessing leaves them unchanged; replay against the lexer model of the same tree). K8 (20 single-fault units: the primary label of the fault\'s diagnostic lies in its file and covers the spelling of the construct the message is about).'),
  'C08': dict(text='Solver queries over the lexer lifted from MIR: every case pattern of every reserved word, every string of the reference trivia language up to n bytes; '
                   'bounded symbolic execution of insert_keyword_statement_terminators over symbolic token types. Violations are replayed through tokenize_program.',
              tech='SMT queries over lexer transition relation lifted from MIR; bounded symbolic execution of MIR (z3)', sect='§4 C08',
-             note='Kernels K1a,K1b,K2,K4 (Eq/Hash consistency of Id and Type under case folding),K5 (words the grammar matches by text, every case pattern, through parse_program),K6 (semantic rule verdicts with every identifier occurrence optionally upper-cased), K7 (parse + full analysis of four programs with one identifier occurrence upper-cased). Outside: equality of whole parsed libraries under re-spelling (grammar), textual keyword comparisons inside grammar actions unless listed.'),
+             note='Kernels K1a,K1b,K2,K4 (Eq/Hash consistency of Id and Type under case folding),K5 (words the grammar matches by text, every case pattern, through parse_program),K6 (semantic rule verdicts with every identifier occurrence optionally upper-cased), K7 (parse + full analysis of four programs with one identifier occurrence upper-cased). Outside: equality of whole parsed libraries under re-spelling (grammar), textual keyword comparisons inside grammar actions unless listed. K8 (the preprocessor leaves comment texts with symbolic bytes unchanged, so what is lexed is the text as written).'),
 }
 NOT_YET = 'check not built yet (work in progress)'
 def main():
